@@ -92,6 +92,31 @@ BufBeh(p, len, base) ==
 ASSUME \A p \in 1..Len(AccDict), len \in Lens, base \in Bases :
           AccDict[p].kind \in {"dom", "str"} => PrintT(<<"BEH", ToJson(BufBeh(p, len, base))>>)
 
+\* continued access: write l1 bytes (from the start), continue with l2 bytes, read everything back; then read l1 bytes (from the
+\* start), continue reading l2 bytes and then "everything that is left": the pieces are consecutive and never leave the object
+ContOK == \A p \in 1..Len(AccDict), l1 \in Lens, l2 \in Lens : LET e == AccDict[p] IN
+            e.kind = "dom" => LET a == DomWrCont(e, 0, Pattern(1, l1))  b == DomWrCont(a.e, a.off, Pattern(101, l2)) IN
+                              /\ Len(b.e.data) = Len(e.data) /\ b.off <= Len(e.data)
+                              /\ b.e.data = Take(Pattern(1, l1) \o Pattern(101, l2), Len(e.data)) \o Drop(e.data, l1 + l2)
+ASSUME ContOK
+ContBeh(p, l1, l2) ==
+  LET e == AccDict[p]
+      sz == Len(e.data)
+      a == DomWrCont(e, 0, Pattern(1, l1))
+      b == DomWrCont(a.e, a.off, Pattern(101, l2))
+      r1 == DomRdCont(b.e, 0, l1)
+      r2 == DomRdCont(b.e, r1.off, l2)
+      r3 == DomRdCont(b.e, r2.off, sz + 3)
+  IN [c |-> [n |-> 1, d |-> HDict(AccDict)],
+      h |-> << Step(<<"wrbuf", e.idx, e.sub, l1, 1>>, << <<"ok">> >> \o Chg(e, a.e)),
+               Step(<<"wrbufc", e.idx, e.sub, l2, 101>>, << <<"ok">> >> \o Chg(a.e, b.e)),
+               Step(<<"rdbuf", e.idx, e.sub, sz + 2>>, << <<"buf", 0>> \o Pad(b.e.data, sz + 2) >>),
+               Step(<<"rdbuf", e.idx, e.sub, l1>>, << <<"buf", 0>> \o Pad(r1.bytes, l1) >>),
+               Step(<<"rdbufc", e.idx, e.sub, l2>>, << <<"buf", 0>> \o Pad(r2.bytes, l2) >>),
+               Step(<<"rdbufc", e.idx, e.sub, sz + 3>>, << <<"buf", 0>> \o Pad(r3.bytes, sz + 3) >>) >>]
+ASSUME \A p \in 1..Len(AccDict), l1 \in Lens, l2 \in Lens :
+          (AccDict[p].kind = "dom" /\ l1 > 0 /\ l2 > 0 /\ l1 <= Len(AccDict[p].data) + 1) => PrintT(<<"BEH", ToJson(ContBeh(p, l1, l2))>>)
+
 \* ---------------- initialisation walk -------------------------------------
 \* every entry's type initialisation runs exactly once: dictionaries of k test
 \* entries (k = 1..4) at the front, middle and end of the access dictionary
